@@ -133,7 +133,7 @@ impl Prop for C08 {
     fn id(&self) -> &'static str { "C08" }
     fn expected_counters(&self) -> Vec<&'static str> { vec!["probe.non_monotone_lineage", "probe.exclusive_group_lineage", "fault.budget_expired_by_clock_step", "fault.clock_jump_at_reading", "probe.fault_position_changed_result_kind", "fault.compile_deadline", "fault.compile_node_budget", "fault.topk_budget_expired", "probe.pipeline_derived_facts_evaluated"] }
     fn level(&self) -> &'static str { "fault_enumeration" }
-    fn budget(&self, tier: Tier) -> Budget { match tier { Tier::Quick => Budget { runs: 12_000, wall_s: 60, recheck: 30 }, Tier::Thorough => Budget { runs: 400_000, wall_s: 1200, recheck: 100 } } }
+    fn budget(&self, tier: Tier) -> Budget { match tier { Tier::Quick => Budget { runs: 12_000, wall_s: 60, recheck: 30 }, Tier::Thorough => Budget { runs: 400_000, wall_s: 1000, recheck: 100 } } }
     fn hash_seed(&self, c: &HybCase) -> u64 { c.hash_seed }
     fn gen(&self, seed: u64, _index: u64, tier: Tier) -> HybCase {
         let mut r = Rng::sub(seed, "workload"); let mut cfg = Rng::sub(seed, "swarm");
